@@ -378,11 +378,61 @@ def gen_head_blocks(g: Gen, c: Contract):
     return {'scfg': scfg, 'begin': r.choice(pool)}
 
 
+def region_chain(g: Gen, fwd, depth, name='x', header=None):
+    """a region block whose exiting chain (depth levels) mirrors the forward targets `fwd`; latch back edges inside"""
+    r = g.rng
+
+    def level(d, nm):
+        be = ('h' + nm,) if r.random() < 0.5 else ()
+        if header is not None and r.random() < 0.3:
+            be = be + (header,)
+        jt = tuple(fwd) + be if r.random() < 0.5 else be + tuple(fwd)
+        if d == 0:
+            if r.random() < 0.3 and len(jt) >= 1 and len(set(jt)) == len(jt):
+                return g.bb.SyntheticExitingLatch(name=nm, _jump_targets=jt, backedges=be, variable='v',
+                                                  branch_value_table={i: t for i, t in enumerate(jt)})
+            return g.bb.BasicBlock(name=nm, _jump_targets=jt, backedges=be)
+        sub = g.SCFG({'x' + nm: level(d - 1, 'x' + nm), 'o' + nm: g.bb.BasicBlock(name='o' + nm, _jump_targets=('x' + nm,))},
+                     name_gen=g.NameGenerator())
+        return g.bb.RegionBlock(name=nm, _jump_targets=jt, backedges=be, kind='loop', header='x' + nm, subregion=sub,
+                                exiting='x' + nm, parent_region=None)
+    return level(depth, name)
+
+
+def gen_sync_exiting(g: Gen, c: Contract):
+    r = g.rng
+    fwd = g.names(0, 3, distinct=True)
+    blk = region_chain(g, fwd, r.choice([1, 1, 2, 3]))
+    if r.random() < 0.1:
+        return {'block': g.block()}
+    # the region after an edit: renamed position by position, a target appended, or targets merged
+    new = list(blk._jump_targets)
+    q = r.random()
+    pool = ['n', 'm'] + UNIVERSE
+    if q < 0.6:
+        new = [t if (t in blk.backedges or r.random() < 0.5) else r.choice(pool) for t in new]
+    elif q < 0.8:
+        new = new + ['n']
+    elif len(fwd) >= 2:
+        new = [t for t in new if t in blk.backedges or t == fwd[-1]]
+    import dataclasses
+    return {'block': dataclasses.replace(blk, _jump_targets=tuple(new))}
+
+
+def gen_update_exiting(g: Gen, c: Contract):
+    r = g.rng
+    fwd = g.names(0, 3, distinct=True)
+    header = r.choice(fwd + ['hh']) if fwd else 'hh'
+    blk = region_chain(g, fwd, r.choice([1, 1, 2, 3]), header=header)
+    return {'region_block': blk if r.random() < 0.95 else g.block(), 'new_region_header': header,
+            'new_region_name': 'n' if r.random() < 0.9 else r.choice(UNIVERSE)}
+
+
 def gen_scfg_only(g: Gen, c: Contract):
     return {'scfg': g.scfg(with_be=0.15, ext=0.4)}
 
 
-GENERATORS = {'head_blocks': gen_head_blocks, 'branch_regions': gen_branch_regions, 'view': gen_view, 'scfg_only': gen_scfg_only, 'dom_tables': gen_dom_tables, 'stream': gen_stream, 'flowinfo': gen_flowinfo, 'block_bcmap': gen_block_bcmap, 'namegen': gen_namegen, 'insert_ctrl': gen_insert_ctrl, 'tails_exits': gen_tails_exits, 'graph_and_pair': gen_graph_and_pair, 'graph_and_subset': gen_graph_and_subset, 'insert': gen_insert, 'branch_replace': gen_branch_replace}
+GENERATORS = {'sync_exiting': gen_sync_exiting, 'update_exiting': gen_update_exiting, 'head_blocks': gen_head_blocks, 'branch_regions': gen_branch_regions, 'view': gen_view, 'scfg_only': gen_scfg_only, 'dom_tables': gen_dom_tables, 'stream': gen_stream, 'flowinfo': gen_flowinfo, 'block_bcmap': gen_block_bcmap, 'namegen': gen_namegen, 'insert_ctrl': gen_insert_ctrl, 'tails_exits': gen_tails_exits, 'graph_and_pair': gen_graph_and_pair, 'graph_and_subset': gen_graph_and_subset, 'insert': gen_insert, 'branch_replace': gen_branch_replace}
 
 
 def gen_args(g: Gen, c: Contract):
@@ -515,9 +565,41 @@ class Outcome:
         self.kind, self.detail = kind, detail   # 'ok' | 'skip' | 'known' | 'fail'
 
 
+def heap_namespace(args):
+    """run-time meaning of the heap-mode vocabulary (DESIGN 11.7): a sub-graph identity is the SCFG object of a region;
+    all_subs() are the sub-graphs nested under the arguments, graph_at_entry(s) their block dictionaries before the call"""
+    subs, depth = [], {}
+
+    def walk(blk, d):
+        if type(blk).__name__ == 'RegionBlock' and blk.subregion is not None:
+            sg = blk.subregion
+            if any(sg is x for x in subs):
+                depth['$shared'] = True
+                return
+            subs.append(sg)
+            depth[id(sg)] = d
+            for b in list(sg.graph.values()):
+                walk(b, d + 1)
+    for v in args.values():
+        walk(v, 1)
+    at_entry = {id(sg): dict(sg.graph) for sg in subs}
+    return {
+        'all_subs': lambda: list(subs),
+        'graph_at_entry': lambda sg: at_entry[id(sg)],
+        'graph_now': lambda sg: sg.graph,
+        'sub_depth': lambda sg: depth[id(sg)],
+        'nesting_wf': lambda: not depth.get('$shared'),
+        'heap_unchanged': lambda: all(dict(sg.graph) == at_entry[id(sg)] for sg in subs),
+        'fact': lambda *a: True,
+    }
+
+
 def check_case(c: Contract, fn, args, ns=None, ignore_known=False):
     """Run the real function on args under the contract. Returns Outcome."""
     ns = ns or runtime_namespace()
+    if c.heap:
+        ns = dict(ns)
+        ns.update(heap_namespace(args))
     pre = view_args(c, {k: snapshot(v) for k, v in args.items()})
     env = dict(ns)
     env.update(view_args(c, args))
